@@ -762,6 +762,121 @@ theorem parseTerm_tlist (po : POps) (hα : ∀ c, isLetter c = true → po.isAlp
 def funPrefix (T : Text) : Bool :=
   startsWith T "join(" || startsWith T "add(" || startsWith T "subtract(" || startsWith T "multiply(" || startsWith T "divide("
 
+/-! ### complex terms without arguments: `fn()` -/
+
+theorem zero_inv {fn : Text} (hf : Word fn) : TextInv (fn ++ ['(', ')']) := by
+  have hfn := word_inv hf
+  have hopen : ∀ r s : Int, dpStep '(' ⟨r, s, false⟩ = ⟨r + 1, s, false⟩ := by intro r s; simp [dpStep]
+  have hclose : ∀ r s : Int, dpStep ')' ⟨r + 1, s, false⟩ = ⟨r, s, false⟩ := by intro r s; simp [dpStep]
+  have hmem : ∀ c ∈ fn ++ ['(', ')'], c ∈ fn ∨ c = '(' ∨ c = ')' := by
+    intro c hc
+    simp only [List.mem_append, List.mem_cons, List.mem_nil_iff, or_false] at hc
+    exact hc
+  refine ⟨?_, by simp, ?_, ?_, ?_, ?_, ?_, ?_, ?_, ?_⟩
+  · obtain ⟨hne', hall⟩ := hf
+    cases hfn' : fn with
+    | nil => exact absurd hfn' hne'
+    | cons a t =>
+      apply trim_of_ends (by simp)
+      · intro b hb; simp at hb; subst hb; exact (letter_facts (hall _ (by rw [hfn']; simp))).2.2.2.1
+      · intro b hb
+        rw [show (a :: t ++ ['(', ')']) = (a :: t ++ ['(']) ++ [')'] from by simp, List.getLast?_concat] at hb
+        simp at hb; subst hb; decide
+  · intro c hc
+    rcases hmem c hc with e | e | e
+    · exact hfn.nobs c e
+    · subst e; decide
+    · subst e; decide
+  · intro r s
+    rw [dpScan_append, hfn.closedAll]
+    simp only [dpScan, hopen, hclose]
+  · rw [noTopComma_append, hfn.noTop0, hfn.closedAll]
+    simp [noTopComma, topComma]
+  · intro r s hr hs hrs
+    rw [noTopComma_append, hfn.deep r s hr hs hrs, hfn.closedAll]
+    simp [noTopComma, topComma]
+  · exact opOK_append _ _ hfn.ops (by simp [opOK, isOp]) hfn.lastOK
+  · intro c hc
+    rw [show fn ++ ['(', ')'] = (fn ++ ['(']) ++ [')'] from by simp, List.getLast?_concat] at hc
+    simp at hc; subst hc; decide
+  · intro c hc
+    rcases hmem c hc with e | e | e
+    · exact hfn.noQuote c e
+    · subst e; decide
+    · subst e; decide
+  · intro r s hr hs
+    rw [noTopBar_append, hfn.barAll r s hr hs, hfn.closedAll]
+    simp [noTopBar, topBar]
+
+/-- `fn()` is read as the complex term with the functor alone -/
+theorem parseComplex_zero (po : POps) (f : Nat) {fn : Text} (hf : Word fn) (hsize : fn.length + 2 ≤ 1000) :
+    parseComplex po f (fn ++ ['(', ')']) = .ok (.cplx (.cons (.atom (str fn)) .nil)) := by
+  have hI := zero_inv hf
+  have htok := word_token hf
+  obtain ⟨a, t, hfn⟩ : ∃ a t, fn = a :: t := by
+    cases hfn : fn with
+    | nil => exact absurd hfn hf.1
+    | cons a t => exact ⟨a, t, rfl⟩
+  have ha := letter_facts (hf.2 a (by rw [hfn]; simp))
+  unfold parseComplex parseComplexWith
+  simp only [hI.trimmed]
+  have hval : validateComplex (fn ++ ['(', ')']) = .ok () := by
+    subst hfn
+    unfold validateComplex
+    have hl : ¬ ((a :: t ++ ['(', ')']).length > 1000) := by simp at hsize ⊢; omega
+    have h1 : (a == '$') = false := by simpa using ha.2.2.2.2.1
+    have h2 : (a == '(') = false := by simpa using ha.2.2.2.2.2.2.2.2.1
+    simp only [h1, h2, List.cons_append, if_false, Bool.or_self, Bool.false_eq_true]
+    rw [if_neg (by simpa using hl)]
+  have hidx : indicesOfParentheses (fn ++ ['(', ')']) = .ok (some (fn.length, fn.length + 1)) := by
+    have h0 := indices_struct_call (fn := fn) (s := []) htok.2 (by simp) rfl rfl
+    rw [show fn ++ ['(', ')'] = fn ++ '(' :: [] ++ [')'] from by simp]
+    simpa using h0
+  simp only [hval, Res.bind_ok, hidx]
+  have hs1 : slice (fn ++ ['(', ')']) 0 fn.length = .ok fn := by
+    unfold slice
+    have : (0 ≤ fn.length ∧ fn.length ≤ (fn ++ ['(', ')']).length) := by simp
+    simp only [this, and_self, if_true, List.drop_zero]
+    rw [List.take_left' rfl]
+  have hs2 : slice (fn ++ ['(', ')']) (fn.length + 1) (fn.length + 1) = .ok [] := by
+    unfold slice
+    have : (fn.length + 1 ≤ fn.length + 1 ∧ fn.length + 1 ≤ (fn ++ ['(', ')']).length) := by simp
+    simp only [this, and_self, if_true]
+    simp
+  simp only [hs1, hs2, Res.bind_ok]
+  unfold parseFunctorTerms
+  simp [htok.trim]
+
+theorem parseTerm_zero (po : POps) (g : Nat) {fn : Text} (hf : Word fn) (hsize : fn.length + 2 ≤ 1000)
+    (hfun : funPrefix (fn ++ ['(', ')']) = false) :
+    parseTerm po (g + 3) (fn ++ ['(', ')']) = .ok (.cplx (.cons (.atom (str fn)) .nil)) := by
+  have hI := zero_inv hf
+  have hcomplex := parseComplex_zero po (g + 1) hf hsize
+  generalize hT : fn ++ ['(', ')'] = T at *
+  rw [show g + 3 = (g + 2) + 1 from rfl, parseTerm_structured po (g + 2) T hI.trimmed hI.nobs (noInfix_of_opOK T hI.ops), qCount_noquote T _ hI.noQuote]
+  simp only [checkQuotes_zero, Res.bind_ok]
+  obtain ⟨a, t, hfn⟩ : ∃ a t, fn = a :: t := by
+    cases hfn : fn with
+    | nil => exact absurd hfn hf.1
+    | cons a t => exact ⟨a, t, rfl⟩
+  have ha := letter_facts (hf.2 a (by rw [hfn]; simp))
+  have hTs : T = a :: (t ++ ['(', ')']) := by rw [← hT, hfn]; simp
+  have hlast : T.getLast? = some ')' := by
+    rw [← hT, show fn ++ ['(', ')'] = (fn ++ ['(']) ++ [')'] from by simp, List.getLast?_concat]
+  have hlen2 : T.length ≥ 2 := by rw [hTs]; simp
+  unfold makeTerm
+  simp only [hI.trimmed]
+  rw [hTs] at hlast hlen2 hfun hcomplex ⊢
+  have e0 : (a == '$') = false := by simpa using ha.2.2.2.2.1
+  have e1 : (a == '"') = false := by simpa using ha.2.2.2.2.2.1
+  have e2 : (a == '[') = false := by simpa using ha.2.2.2.2.2.2.1
+  have e3 : (a != '(') = true := by simpa using ha.2.2.2.2.2.2.2.2.1
+  simp only [e0, Bool.false_eq_true, if_false, hlen2, if_true, hlast, e1, e2, Bool.false_and, e3,
+    show ((')' : Char) == ')') = true from by decide, Bool.and_self]
+  unfold funPrefix at hfun
+  simp only [hfun, Bool.false_eq_true, if_false]
+  exact hcomplex
+
 /-- `Canon d T t`: T is the canonical text of the term t, nested at most d deep -/
 inductive Canon : Nat → Text → Term → Prop where
   | int (d : Nat) (i : Int) (hlo : -(2:Int)^63 ≤ i) (hhi : i < (2:Int)^63) : Canon d (toString i).toList (.int i)
@@ -774,6 +889,8 @@ inductive Canon : Nat → Text → Term → Prop where
       (hsize : fn.length + (joinArgs as).length + 2 ≤ 1000) :
       Canon (d + 1) (fn ++ '(' :: joinArgs as ++ [')']) (.cplx (.cons (.atom (str fn)) (TermList.ofList ts)))
   | elist (d : Nat) : Canon d ['[', ']'] Term.empty
+  | zero (d : Nat) (fn : Text) (hf : Word fn) (hsize : fn.length + 2 ≤ 1000) (hfun : funPrefix (fn ++ ['(', ')']) = false) :
+      Canon d (fn ++ ['(', ')']) (.cplx (.cons (.atom (str fn)) .nil))
   | phrase (d : Nat) (s : Text) (h : Phrase s) : Canon d s (.atom (str s))
   | anon (d : Nat) : Canon d ['$', '_'] .anon
   | list (d : Nat) (as : List Text) (ts : List Term) (hne : as ≠ []) (hlen : as.length = ts.length)
@@ -801,6 +918,7 @@ theorem canon_inv {d : Nat} {T : Text} {t : Term} (h : Canon d T t) : TextInv T 
     rw [← e]
     exact ih i hi (by omega)
   | elist d => exact elist_inv
+  | zero d fn hf _ _ => exact zero_inv hf
   | phrase d s h => exact phrase_inv h
   | anon d => exact anon_inv
   | list d as ts hne hlen _ ih =>
@@ -823,6 +941,7 @@ theorem canon_not_nil {d : Nat} {T : Text} {t : Term} (h : Canon d T t) : t.isNi
   | var => rfl
   | cplx => rfl
   | elist => rfl
+  | zero => rfl
   | phrase => rfl
   | anon => rfl
   | list d as ts hne hlen hargs =>
@@ -921,6 +1040,7 @@ theorem parse_canon (po : POps) (hα : ∀ c, isLetter c = true → po.isAlpha c
     rw [hall]
     rfl
   | elist d => intro f; rw [show 3 * d + 3 + f = (3 * d + f) + 3 from by omega]; exact parseTerm_elist po _
+  | zero d fn hf hsize hfun => intro f; rw [show 3 * d + 3 + f = (3 * d + f) + 3 from by omega]; exact parseTerm_zero po _ hf hsize hfun
   | phrase d s h => intro f; rw [show 3 * d + 3 + f = (3 * d + 1 + f) + 2 from by omega]; exact parseTerm_phrase po _ h
   | anon d => intro f; rw [show 3 * d + 3 + f = (3 * d + 1 + f) + 2 from by omega]; exact parseTerm_anon po _
   | list d as ts hne hlen hargs ih =>
@@ -1052,6 +1172,7 @@ theorem show_canon (sf : UInt64 → String) {d : Nat} {T : Text} {t : Term} (h :
       String.toList_ofList, h0, htail, joinArgs_tail]
     simp
   | elist d => simp [Term.empty, Term.show, Term.isNil]
+  | zero d fn _ _ _ => simp [Term.show, TermList.showCplx, TermList.showArgs, str]
   | phrase d s _ => simp [Term.show, str]
   | anon d => simp [Term.show]
   | list d as ts hne hlen hargs ih =>
